@@ -217,12 +217,13 @@ def wire_consts(prog):
     return consts
 
 
-def check(run):
+def check(run, prefix="O19"):
+    P = prefix
     prog = run.program("lib")
     consts = wire_consts(prog)
 
     # ------------------------------------------------------------------ O19.1
-    o = run.ob("O19.1", "single exact decoding door with an MTU-capped preallocation limit",
+    o = run.ob(P + ".1", "single exact decoding door with an MTU-capped preallocation limit",
                "a non-exact decoder accepts trailing bytes; an uncapped preallocation lets one datagram allocate gigabytes", floor=4)
     b = prog.body(NET + "deserialize")
     if b is None:
@@ -250,7 +251,7 @@ def check(run):
     o.check(not nonexact, "no-non-exact-decoder", "no body calls a non-exact wincode deserializer", "", {"sites": nonexact})
 
     # ------------------------------------------------------------------ O19.2
-    o = run.ob("O19.2", "every type reachable from the wire roots has both SchemaRead and SchemaWrite; derived on both sides or listed as hand-written",
+    o = run.ob(P + ".2", "every type reachable from the wire roots has both SchemaRead and SchemaWrite; derived on both sides or listed as hand-written",
                "a one-sided or hand-written-on-one-side encoding is where writer and reader silently diverge", floor=25)
     calc = SizeCalc(prog, consts, o)
     have = {}
@@ -278,7 +279,7 @@ def check(run):
                     prog.adts[a]["span"], {"hand_written": sorted(hw)})
 
     # ------------------------------------------------------------------ O19.3
-    o = run.ob("O19.3", "hand-written reader/writer pairs agree on the ordered primitive sequence and size_of",
+    o = run.ob(P + ".3", "hand-written reader/writer pairs agree on the ordered primitive sequence and size_of",
                "a reader consuming another sequence than the writer produced mis-decodes every message carrying the type", floor=6)
     def impl_body(adt, trait, method):
         for d, x in prog.bodies.items():
@@ -326,7 +327,7 @@ def check(run):
         o.check(rs == [("ty", "usize")], "%s|read-sequence" % nm, "%s::read consumes exactly one usize" % nm, rb.span, {"read": rs})
 
     # ------------------------------------------------------------------ O19.4
-    o = run.ob("O19.4", "bounded indices validate on read; read_bitvec bounds bit count and word count before building the BitVec",
+    o = run.ob(P + ".4", "bounded indices validate on read; read_bitvec bounds bit count and word count before building the BitVec",
                "an out-of-range index decoded from the wire indexes fixed-size arrays (panic); an oversize bitmask allocates/iterates unboundedly", floor=5)
     for adt, nm, mx in ((A + "types::slice_index::SliceIndex", "SliceIndex", consts["MAX_SLICES_PER_BLOCK"]), (A + "shredder::shred_index::ShredIndex", "ShredIndex", consts["TOTAL_SHREDS"])):
         rb = impl_body(adt, "SchemaRead", "read")
@@ -357,7 +358,7 @@ def check(run):
         o.check(ok, "read_bitvec|max-signers", "read_bitvec is called with MAX_SIGNERS (%s)" % consts["MAX_SIGNERS"], callers[0].span if callers else "")
 
     # ------------------------------------------------------------------ O19.5
-    o = run.ob("O19.5", "worst-case encoded size of every wire root <= MTU_BYTES",
+    o = run.ob(P + ".5", "worst-case encoded size of every wire root <= MTU_BYTES",
                "a message above the MTU trips the send-side assertion (panic) or is truncated/dropped by the network", floor=5)
     for r in ROOTS:
         if r not in prog.adts:
